@@ -31,12 +31,15 @@ for c in "$checks".split():
     vio = [l.strip() for l in t.splitlines() if l.startswith("VIOLATION")]
     kinds = re.findall(r"^\[check %s\] (spec|model|tie|proof|static-gate): (.*)$" % c, t, re.M)
     codes = re.findall(r"codes (\[[^\]]*\])", t)
-    concrete = bool(vio) and not vio[0].endswith("no-failing-input-found")
+    concrete = bool(vio) and not vio[0].endswith("no-failing-input-found")   # spec violation on a concrete input
     det[c] = {"violation": vio[:1], "concrete_input": concrete, "kinds": sorted({k for k, _ in kinds}), "codes": codes[:2],
               "panic_or_hang": ("panicked" in t or "no progress" in t)}
 own = det.get(prop, {})
-caught = bool(own.get("concrete_input")) and ("spec" in own.get("kinds", []) or "model" in own.get("kinds", []))
-json.dump({"name": "$n", "property": prop, "results": res, "caught_by_own_property": caught, "details": det}, open("$d/result.json", "w"), indent=1)
+# caught = the check of the property reports a violation that comes from running the changed code: a spec violation on a concrete
+# input, or a case on which the implementation differs from the model (reported with no-failing-input-found). A violation that
+# comes only from the tooling (kind tie/proof/static-gate: build failure, vanished worktree) does not count.
+caught = bool(own.get("violation")) and ("spec" in own.get("kinds", []) or "model" in own.get("kinds", []))
+json.dump({"name": "$n", "property": prop, "results": res, "caught_by_own_property": caught, "caught_with_failing_input": bool(own.get("concrete_input")), "details": det}, open("$d/result.json", "w"), indent=1)
 open("$d/.caught", "w").write("true" if caught else "false")
 PY
   caught=$(cat $d/.caught); rm -f $d/.caught
